@@ -5,6 +5,8 @@ and pairwise disjoint ("re-queue only if parked"), and every process in one of t
 unfinished.
 -/
 namespace QM.Sys
+set_option linter.unusedSectionVars false
+variable [Cfg]
 
 structure WSched (w : WorkerSt) : Prop where
   qnd : w.queue.Nodup
@@ -501,6 +503,7 @@ theorem SInv.envStep1 {s : Sys} (h : SInv s) (combine) (w : Wid) : SInv (envStep
     | await a ts => exact (h.popEvtOther hq (by intros; simp)).handleAwait he
     | procResults a rs => exact (h.popEvtOther hq (by intros; simp)).handleProcResults combine he
     | resultResp req r => exact (h.popEvtOther hq (by intros; simp)).envOther _ _
+    | exited p => exact h.popEvtOther hq (by intros; simp)
 
 /-! ### worker commands -/
 
@@ -891,8 +894,9 @@ theorem SInv.execStep {s : Sys} (h : SInv s) (i : Wid) (fuel : Nat) (ordQ : List
       subst hxx
       split
       · intro r' hknown
-        refine h.afterWorker r' rfl hev0 (hwk0 _) ?_ hknown (fun c' hc' => Or.inl (by simpa [hsp0] using hc'))
-        simp only [setWk_wk, upd_same]
+        refine h.afterWorker r' (by simp) (fun w e he => mem_noteExit_evtQ i cur x he) (fun w hw => by simp [hwk0 _ w hw]) ?_ hknown
+          (fun c' hc' => Or.inl (by simpa [hsp0] using hc'))
+        simp only [noteExit_wk, setWk_wk, upd_same]
         exact hW1.finish hns _ _
       · have hsl := slice_result s.prog s.now cur fuel x
         generalize slice s.prog s.now cur fuel x = r at hsl
@@ -955,13 +959,15 @@ theorem SInv.execStep {s : Sys} (h : SInv s) (i : Wid) (fuel : Nat) (ordQ : List
           exact hW2.parkSelecting hns2 hx2 hres
         | failed =>
           intro r' hknown
-          refine h.afterWorker r' rfl hev0 (hwk0 _) ?_ hknown (fun c' hc' => Or.inl (by simpa [hsp0] using hc'))
-          simp only [setWk_wk, upd_same]
+          refine h.afterWorker r' (by simp) (fun w e he => mem_noteExit_evtQ i cur x' he) (fun w hw => by simp [hwk0 _ w hw]) ?_ hknown
+            (fun c' hc' => Or.inl (by simpa [hsp0] using hc'))
+          simp only [noteExit_wk, setWk_wk, upd_same]
           exact hW2.finish hns2 _ _
         | done =>
           intro r' hknown
-          refine h.afterWorker r' rfl hev0 (hwk0 _) ?_ hknown (fun c' hc' => Or.inl (by simpa [hsp0] using hc'))
-          simp only [setWk_wk, upd_same]
+          refine h.afterWorker r' (by simp) (fun w e he => mem_noteExit_evtQ i cur x' he) (fun w hw => by simp [hwk0 _ w hw]) ?_ hknown
+            (fun c' hc' => Or.inl (by simpa [hsp0] using hc'))
+          simp only [noteExit_wk, setWk_wk, upd_same]
           exact hW2.finish hns2 _ _
 
 structure CheckRel (s s' : Sys) (i : Wid) : Prop where
